@@ -210,7 +210,7 @@ impl U {
         }
         self.advanced += d;
         self.set_seq(self.seq() + d);
-        self.set_time(self.time() + 5 * d as u64);
+        self.set_time(self.time().saturating_add(5 * d as u64));
         true
     }
 
@@ -261,16 +261,22 @@ impl U {
         let d = to - self.seq();
         self.pay_rent(to);
         self.set_seq(to);
-        self.set_time(self.time() + 5 * d as u64);
+        self.set_time(self.time().saturating_add(5 * d as u64));
         d
     }
 
     /// Move the ledger clock forward to timestamp `t`, letting the matching number of ledgers
     /// (5 s each) close as far as the harness's advancement budget allows.
     pub fn advance_to_time(&mut self, t: u64) {
+        self.advance_to_time_paced(t, 5)
+    }
+
+    /// As `advance_to_time`, with ledgers closing every `pace` seconds (the network promises no
+    /// particular pace, only that close times increase).
+    pub fn advance_to_time_paced(&mut self, t: u64, pace: u64) {
         let now = self.time();
         if t > now {
-            let d = ((t - now) / 5).min(3_000_000) as u32;
+            let d = ((t - now) / pace.max(1)).min(3_300_000) as u32;
             if d > 0 {
                 if self.advanced as u64 + d as u64 > 3_400_000 {
                     self.pay_rent(self.seq() + d);
